@@ -350,3 +350,92 @@ pub fn c06_aborted_stream_ends() {
     let p = nd::any_u8();
     dispatch!(p, aborted_stream_case, 0 1 2);
 }
+
+/// A task of the command fires the command's own abort handle in the middle of a settle round (a
+/// watchdog).  Work queued *behind* it in the same round is cancelled work: it must not be polled and
+/// must not produce outputs.  V: 0 = the victim is the command's root task, 1 = the victim is a
+/// spawned sibling, 2 = both.
+pub struct AbortFirer {
+    pub handle: crux_core::command::verif_hooks::AbortHandle,
+    pub probe: Arc<Probe>,
+    pub slot: Arc<Slot>,
+}
+
+impl std::future::Future for AbortFirer {
+    type Output = ();
+    fn poll(self: std::pin::Pin<&mut Self>, cx: &mut std::task::Context<'_>) -> std::task::Poll<()> {
+        let this = self.get_mut();
+        let n = this.probe.polls.load(std::sync::atomic::Ordering::SeqCst);
+        this.probe.polls.store(n + 1, std::sync::atomic::Ordering::SeqCst);
+        if n == 0 {
+            this.slot.put(cx.waker().clone());
+            std::task::Poll::Pending
+        } else {
+            this.handle.abort();
+            std::task::Poll::Ready(())
+        }
+    }
+}
+
+fn abort_from_task_case<const V: u8>() {
+    let (pr, ps, pf) = (Arc::new(Probe::default()), Arc::new(Probe::default()), Arc::new(Probe::default()));
+    let (sr, ss, sf) = (Slot::new(), Slot::new(), Slot::new());
+    let tag = nd::any_u8();
+    let park = Step { keep_slot: true, ..Step::pending() };
+    let work = Step { effect: true, event: true, ready: true, ..Step::pending() };
+    let mut cmd: Cmd = {
+        let (pr, sr) = (pr.clone(), sr.clone());
+        crux_core::Command::new(move |ctx| Script::new([park, work, Step::pending()], &pr, &sr, ctx, tag))
+    };
+    {
+        let (pf, sf, handle) = (pf.clone(), sf.clone(), cmd.abort_handle());
+        cmd.spawn(move |_ctx| AbortFirer { handle, probe: pf, slot: sf });
+    }
+    if V >= 1 {
+        let (ps, ss) = (ps.clone(), ss.clone());
+        cmd.spawn(move |ctx| Script::new([park, work, Step::pending()], &ps, &ss, ctx, tag));
+    }
+    hooks::run_until_settled(&mut cmd);
+    assert!(pr.polls() == 1 && pf.polls() == 1, "all parked");
+    assert!(!cmd.was_aborted(), "not aborted yet");
+
+    // the watchdog's signal and the work's wake-ups arrive back to back, the watchdog first
+    sf.take().expect("firer parked").wake();
+    if V != 1 {
+        sr.take().expect("root parked").wake();
+    }
+    if V >= 1 {
+        ss.take().expect("sibling parked").wake();
+    }
+    hooks::run_until_settled(&mut cmd);
+    assert!(pf.polls() == 2, "watchdog ran");
+    assert!(cmd.was_aborted(), "aborted from inside the round");
+    if V != 1 {
+        assert!(pr.polls() == 1, "root task queued behind the abort is not polled");
+    }
+    if V >= 1 {
+        assert!(ps.polls() == 1, "spawned task queued behind the abort is not polled");
+    }
+    assert!(cmd.effects().count() == 0, "cancelled work produced no effect");
+    assert!(cmd.events().count() == 0, "cancelled work produced no event");
+    assert!(cmd.is_done(), "aborted command is done");
+    assert!(pr.polls() == 1 && (V == 0 || ps.polls() == 1), "no poll on later observations either");
+    nd_cover!(V == 0, "root task behind an in-round abort");
+    nd_cover!(V == 1, "spawned task behind an in-round abort");
+    nd_cover!(V == 2, "both behind an in-round abort");
+    forget((cmd, pr, ps, pf, sr, ss, sf));
+}
+
+#[cfg_attr(kani, kani::proof, kani::unwind(6))]
+#[cfg_attr(kani, kani::stub(core::mem::MaybeUninit::write, crate::common::maybe_uninit_write))]
+pub fn c06_abort_from_task_root() {
+    let v = nd::any_u8();
+    dispatch!(v, abort_from_task_case, 0);
+}
+
+#[cfg_attr(kani, kani::proof, kani::unwind(6))]
+#[cfg_attr(kani, kani::stub(core::mem::MaybeUninit::write, crate::common::maybe_uninit_write))]
+pub fn c06_abort_from_task_spawned() {
+    let v = nd::any_u8();
+    dispatch!(v, abort_from_task_case, 1 2);
+}
